@@ -128,6 +128,9 @@ class Engine:
         if self.opts.get('listener', True):
             self.listener = make_listener(plumpy, self)
             proc.add_process_listener(self.listener)
+            if self.opts.get('oneshot'):
+                self.second_listener = make_listener(plumpy, _SecondListener(self))
+                proc.add_process_listener(self.second_listener)
         proc.add_state_event_callback(plumpy.base.state_machine.StateEventHook.ENTERED_STATE, self._entered)
         for ident in range(self.opts.get('cleanups', 2)):
             self.cleanups_run[ident] = 0
@@ -175,6 +178,10 @@ class Engine:
         self.world.rec('notify', programs.label(proc), event, programs.freeze(args))
         for index in self.pending_on.pop((event, count), []):
             self.fire(index, 'listener')
+        if self.opts.get('oneshot') and event in ('finished', 'excepted', 'killed'):
+            # a one-shot listener: removes itself from inside the terminal notification
+            proc.remove_process_listener(self.listener)
+            self.world.rec('listener_removed_itself', event)
         self.world.site(proc, f'listener:{event}')
 
     # -- actions -----------------------------------------------------------------------------
@@ -409,6 +416,16 @@ class Engine:
     def finish(self):
         self.loop.hooks = None
         seams.reset_world()
+
+
+class _SecondListener:
+    """Sink for a second, passive listener: records 'notify2' events only."""
+
+    def __init__(self, engine):
+        self.engine = engine
+
+    def notified(self, event, proc, args):
+        self.engine.world.rec('notify2', programs.label(proc), event)
 
 
 def make_listener(plumpy, engine):
